@@ -144,11 +144,20 @@ func (d *denum) resolveCall(call *ast.CallExpr, env map[types.Object]ast.Expr) *
 
 func (d *denum) checkTarget(t *inlTarget) *inlTarget {
 	n := 0
+	variadic := false
 	for _, p := range t.ftype.Params.List {
 		if len(p.Names) == 0 {
 			return nil
 		}
 		n += len(p.Names)
+		if _, ok := p.Type.(*ast.Ellipsis); ok {
+			variadic = true
+		}
+	}
+	if variadic && len(t.args) >= n-1 {
+		// f(a, x, y, z) for f(a T, rest ...U): rest is the list {x, y, z} (the call has no `...`: see resolveCall)
+		rest := &ast.CompositeLit{Elts: append([]ast.Expr{}, t.args[n-1:]...)}
+		t.args = append(append([]ast.Expr{}, t.args[:n-1]...), rest)
 	}
 	if n != len(t.args) {
 		return nil
@@ -169,7 +178,7 @@ type inlResult struct {
 // runInlined enumerates the callee's paths from state s with the receiver and parameters bound to the arguments.
 func (d *denum) runInlined(t *inlTarget, s dstate, nres int, named []*ast.Ident) ([]inlResult, bool) {
 	sub := &denum{info: d.info, pkg: d.pkg, inits: d.inits, decls: d.decls, limit: d.limit, inlineDepth: d.inlineDepth + 1, opaqueLoops: true, loopsOnce: d.loopsOnce,
-		inlineVals: true, callVars: d.callVars, tsClause: d.tsClause, tsSwitch: d.tsSwitch, inlStack: append(append([]*ast.BlockStmt{}, d.inlStack...), t.body), noInline: d.noInline}
+		inlineVals: true, callVars: d.callVars, tsClause: d.tsClause, tsSwitch: d.tsSwitch, inlStack: append(append([]*ast.BlockStmt{}, d.inlStack...), t.body), noInline: d.noInline, loopHook: d.loopHook}
 	argOf := func(arg ast.Expr) ast.Expr {
 		if inner, isCall := ast.Unparen(arg).(*ast.CallExpr); isCall {
 			if ob := d.callVars[inner]; ob != nil {
@@ -776,16 +785,71 @@ func (d *denum) split(cond ast.Expr, in []dstate) (t, f []dstate) {
 	}
 	// a call of a package-local predicate whose body can be enumerated: its paths are spliced in, with the parameters
 	// bound to the arguments (virtual inlining), so a test moved into a helper reads like the inline test
+	// slices.ContainsFunc(list, pred) over a list of constants known here is pred(e1) || pred(e2) || …
+	if call, ok := cond.(*ast.CallExpr); ok && d.decls != nil && len(call.Args) == 2 && len(in) > 0 {
+		if fn := calleeOf(d.info, call); fn != nil && (fullName(fn) == "slices.ContainsFunc" || fullName(fn) == "slices.IndexFunc" && false) {
+			list := d.subst(call.Args[0], in[0].env, 0)
+			if id, ok := ast.Unparen(list).(*ast.Ident); ok {
+				if init, ok := d.inits[d.info.ObjectOf(id)]; ok {
+					list = init
+				}
+			}
+			// a field of a package-level struct value: what its literal gives the field
+			if se, ok := ast.Unparen(list).(*ast.SelectorExpr); ok {
+				if id, ok := ast.Unparen(se.X).(*ast.Ident); ok {
+					if lit, ok := ast.Unparen(d.inits[d.info.ObjectOf(id)]).(*ast.CompositeLit); ok && d.inits[d.info.ObjectOf(id)] != nil {
+						for _, el := range lit.Elts {
+							if kv, ok := el.(*ast.KeyValueExpr); ok {
+								if k, ok := kv.Key.(*ast.Ident); ok && k.Name == se.Sel.Name {
+									list = kv.Value
+								}
+							}
+						}
+					}
+				}
+			}
+			if cl, ok := ast.Unparen(list).(*ast.CompositeLit); ok && len(cl.Elts) > 0 && len(cl.Elts) <= 32 {
+				allConst := true
+				for _, el := range cl.Elts {
+					if tv, ok := d.info.Types[el]; !ok || tv.Value == nil {
+						allConst = false
+					}
+				}
+				if allConst {
+					var or ast.Expr
+					for _, el := range cl.Elts {
+						one := &ast.CallExpr{Fun: call.Args[1], Args: []ast.Expr{el}}
+						if or == nil {
+							or = one
+						} else {
+							or = &ast.BinaryExpr{X: or, Op: token.LOR, Y: one}
+						}
+					}
+					return d.split(or, in)
+				}
+			}
+		}
+	}
 	if call, ok := cond.(*ast.CallExpr); ok && d.decls != nil && d.inlineDepth < 3 {
 		type fnBody struct {
 			Type *ast.FuncType
 			Body *ast.BlockStmt
+			Recv *ast.Ident // a method's receiver name …
+			On   ast.Expr   // … and what it is called on
 		}
 		var fd *fnBody
 		if fn := calleeOf(d.info, call); fn != nil {
 			if x := d.decls[fn]; x != nil {
-				fd = &fnBody{x.Type, x.Body}
+				fd = &fnBody{Type: x.Type, Body: x.Body}
+				if x.Recv != nil && len(x.Recv.List) == 1 && len(x.Recv.List[0].Names) == 1 {
+					if se, ok := ast.Unparen(call.Fun).(*ast.SelectorExpr); ok {
+						fd.Recv, fd.On = x.Recv.List[0].Names[0], se.X
+					}
+				}
 			}
+		} else if lit, isLit := ast.Unparen(call.Fun).(*ast.FuncLit); isLit {
+			// a predicate literal applied on the spot
+			fd = &fnBody{Type: lit.Type, Body: lit.Body}
 		} else if id, isID := ast.Unparen(call.Fun).(*ast.Ident); isID && len(in) > 0 {
 			// a local predicate closure (is := func(x string) bool {…}): the same literal on every state
 			ob := d.info.ObjectOf(id)
@@ -799,7 +863,7 @@ func (d *denum) split(cond ast.Expr, in []dstate) (t, f []dstate) {
 				lit = l
 			}
 			if lit != nil {
-				fd = &fnBody{lit.Type, lit.Body}
+				fd = &fnBody{Type: lit.Type, Body: lit.Body}
 			}
 		}
 		if fd != nil {
@@ -809,13 +873,31 @@ func (d *denum) split(cond ast.Expr, in []dstate) (t, f []dstate) {
 					for _, p := range fd.Type.Params.List {
 						prms = append(prms, p.Names...)
 					}
-					if len(prms) == len(call.Args) && !call.Ellipsis.IsValid() {
+					// p(x, "a", "b") for p(s string, rest ...string): rest is the list {"a", "b"}
+					variadic := false
+					if n := len(fd.Type.Params.List); n > 0 {
+						_, variadic = fd.Type.Params.List[n-1].Type.(*ast.Ellipsis)
+					}
+					if (len(prms) == len(call.Args) && !variadic || variadic && len(call.Args) >= len(prms)-1) && !call.Ellipsis.IsValid() {
 						okAll := true
 						var tt, ff []dstate
 						for _, s := range in {
 							sub := &denum{info: d.info, pkg: d.pkg, inits: d.inits, decls: d.decls, limit: d.limit, inlineDepth: d.inlineDepth + 1, opaqueLoops: d.opaqueLoops}
 							st := dstate{conds: s.conds, env: s.env, trace: s.trace}
+							if fd.Recv != nil && fd.Recv.Name != "_" {
+								st = st.bind(d.info.Defs[fd.Recv], d.subst(fd.On, s.env, 0))
+							}
 							for i, p := range prms {
+								if variadic && i == len(prms)-1 {
+									rest := &ast.CompositeLit{}
+									for _, a := range call.Args[i:] {
+										rest.Elts = append(rest.Elts, d.subst(a, s.env, 0))
+									}
+									if p.Name != "_" {
+										st = st.bind(d.info.Defs[p], rest)
+									}
+									continue
+								}
 								if p.Name != "_" {
 									st = st.bind(d.info.Defs[p], d.subst(call.Args[i], s.env, 0))
 								}
@@ -918,8 +1000,32 @@ func (d *denum) run(stmts []ast.Stmt, in []dstate) []dstate {
 					}
 				}
 			}
+			// `return helper(x)`: the helper is followed into like anywhere else, and the path returns what it returned
+			if d.inlineVals && len(s.Results) > 0 {
+				cur = d.inlineCallsIn(s, cur)
+			}
 			for _, x := range cur {
-				d.paths = append(d.paths, dpath{Conds: x.conds, Ret: s, Env: x.env, Trace: append(append([]ast.Stmt{}, x.trace...), s)})
+				ret := s
+				if d.inlineVals && d.callVars != nil {
+					var res []ast.Expr
+					changed := false
+					for _, r := range s.Results {
+						if call, ok := ast.Unparen(r).(*ast.CallExpr); ok {
+							if ob := d.callVars[call]; ob != nil {
+								if b, has := x.env[ob]; has {
+									res = append(res, b)
+									changed = true
+									continue
+								}
+							}
+						}
+						res = append(res, r)
+					}
+					if changed {
+						ret = &ast.ReturnStmt{Return: s.Return, Results: res}
+					}
+				}
+				d.paths = append(d.paths, dpath{Conds: x.conds, Ret: ret, Env: x.env, Trace: append(append([]ast.Stmt{}, x.trace...), s)})
 			}
 			return nil
 		case *ast.AssignStmt:
@@ -1170,6 +1276,9 @@ func (d *denum) run(stmts []ast.Stmt, in []dstate) []dstate {
 			}
 			d.undecided = "a for statement"
 			return nil
+		case *ast.IncDecStmt:
+			// indent++ / n--: the variable no longer has the binding it had
+			cur = d.havoc(s, traced(cur, s))
 		default:
 			d.undecided = "a statement the path enumerator does not interpret (" + nodeKind(st) + ")"
 			return nil
